@@ -161,6 +161,33 @@ def discharge_vac(obls, specs, ip, seed):
     discharge(obls, None, None, tier='quick', seed=seed, timeout=5)
 
 
+class _Done:
+    def __init__(self, rc, out, err):
+        self.returncode, self.stdout, self.stderr = rc, out, err
+
+
+def run_group(cmd, timeout, env=None):
+    """subprocess.run(capture_output=True, text=True) in a process group of its own; on timeout the whole group (pool workers included)
+    is killed, so that a looping stand-in leaves nothing behind"""
+    import signal
+    p = subprocess.Popen(cmd, stdout=subprocess.PIPE, stderr=subprocess.PIPE, text=True, env=env, start_new_session=True)
+    try:
+        out, err = p.communicate(timeout=timeout)
+    except subprocess.TimeoutExpired:
+        try:
+            os.killpg(p.pid, signal.SIGKILL)
+        except OSError:
+            pass
+        p.communicate()
+        raise
+    finally:
+        try:
+            os.killpg(p.pid, signal.SIGKILL)       # stragglers of a finished run (orphaned workers)
+        except OSError:
+            pass
+    return _Done(p.returncode, out, err)
+
+
 def crashed_in_repo(stderr, repo_root):
     """when a stand-in process died with a traceback: did the exception come out of the code under test (innermost non-library frame
     inside the repository's sources) rather than out of the harness?  Returns 'Exc: message (file:line in function)' or None.
@@ -191,7 +218,7 @@ def native_bounded(runner, name, clause, code, bound, func):
     env['PYTHONPATH'] = os.path.join(runner.repo.root, 'src')
     env['VERIF_TIER'] = runner.tier
     try:
-        p = subprocess.run([NATIVE_PY, '-c', code], capture_output=True, text=True, timeout=1200, env=env)
+        p = run_group([NATIVE_PY, '-c', code], timeout=1200, env=env)
     except Exception as e:
         return {'undecided': (name, 'bounded stand-in could not run: %r' % (e,))}
     try:
